@@ -285,6 +285,23 @@ HISTORY_MATERIALS = ("OgdenRoxburgh", "OgdenRoxburghAD", "Plastic", "Visco")
 def run_prelude(doc):
     """Earlier, unrelated activity in the same process (post-processing of another model of the
     same kind with the public helpers): it must not change what a model created afterwards does."""
+    if doc.get("height_study") and not doc.get("_sibling"):
+        # the same model with two more layers of cells was analysed earlier in this process: its
+        # constraint items assembled their vectors and matrices
+        import copy
+
+        d2 = copy.deepcopy(doc)
+        d2["_sibling"] = True
+        d2.pop("prelude", None)
+        d2["mesh"]["n"] = list(d2["mesh"]["n"][:-1]) + [d2["mesh"]["n"][-1] + 2]
+        try:
+            w2 = World(d2)
+            for it in w2.items:
+                if type(it).__name__.startswith("MultiPoint"):
+                    it.assemble.vector(w2.field)
+                    it.assemble.matrix()
+        except Discard:
+            pass
     for op in doc.get("prelude", []):
         mesh = build_mesh(doc["mesh"])
         region = build_region(mesh, doc.get("region"))
@@ -325,6 +342,28 @@ class World:
         self.steps = []
         for s in doc.get("steps", []):
             self.steps.append(self._build_step(s))
+        self.shadow = None
+        if doc.get("shadow_model") and doc["items"] and doc["items"][0]["type"] == "SolidBody" and doc.get("field", {}).get("kind", "Field") in ("Field", "PlaneStrain"):
+            # a second, unrelated model in the same process that shares the MATERIAL OBJECT of the first
+            # body (one material definition for several parts): same region, its own field container,
+            # its own solid body - evaluated at its own states between the substeps of the job
+            um0 = self.items[0].umat
+            self.shadow_field = build_field(self.region, doc.get("field", {}), self.seed)
+            self.shadow = fem.SolidBody(getattr(um0, "inner", um0), self.shadow_field)
+            self.shadow_pokes = 0
+
+    def poke_shadow(self):
+        """The other model takes a (converged) step of its own."""
+        if self.shadow is None:
+            return
+        self.shadow_pokes += 1
+        rng = np.random.default_rng([self.seed % (1 << 32), self.shadow_pokes])
+        span = float((self.mesh.points.max(0) - self.mesh.points.min(0)).max())
+        vals = self.shadow_field[0].values
+        vals[...] = 0.03 * span * rng.normal(size=vals.shape)
+        self.shadow.assemble.vector(self.shadow_field)
+        self.shadow.assemble.matrix()
+        self.shadow.results.update_statevars()
 
     # -- items ------------------------------------------------------------------------
     def _umat(self, k, spec):
@@ -783,6 +822,10 @@ def ref_jac_items(world, items, parallel=False):
         kw = {"parallel": True} if parallel else {}
         K = item.assemble.matrix(**kw).toarray()
         m = world.multiplier_of(item)
+        if K.shape[0] > n or K.shape[1] > n:
+            from .kernel import Misbehaviour
+
+            raise Misbehaviour("item-shape", f"{type(item).__name__}.assemble.matrix() has shape {K.shape}, the model has {n} unknowns", site=f"{type(item).__name__}.matrix.shape")
         out[: K.shape[0], : K.shape[1]] += m * K
     return out
 
